@@ -598,3 +598,156 @@ def alternatives(fn: ast.AST, e: ast.expr | None) -> list[ast.expr]:
         else:
             out.append(v)
     return out
+
+
+def family(repo, fi: FuncInfo, depth: int = 3) -> list[FuncInfo]:
+    """``fi`` plus the underscore-private helpers of its class / module it still calls (those the inliner could not
+    splice, e.g. a loop helper used inside a boolean expression), transitively."""
+    out = [fi]
+    seen = {fi.qual}
+    frontier = [fi]
+    for _ in range(depth):
+        nxt: list[FuncInfo] = []
+        for f in frontier:
+            for c in calls_in(f.node):
+                name = call_name_of(c)
+                if not name.startswith("_") or name.startswith("__"):
+                    continue
+                h = None
+                if isinstance(c.func, ast.Attribute) and isinstance(c.func.value, ast.Name) and c.func.value.id in ("self", "cls") and f.cls is not None:
+                    h = f.cls.find_method(name)
+                elif isinstance(c.func, ast.Name):
+                    h = repo.functions.get(f"{f.module.name}:{name}")
+                if h is not None and h.qual not in seen:
+                    seen.add(h.qual)
+                    out.append(h)
+                    nxt.append(h)
+        frontier = nxt
+    return out
+
+
+def reaching_defs(g: CFG, at: int, name: str) -> tuple[list[int], bool]:
+    """(definition nodes of ``name`` that reach node ``at``, whether the function entry also reaches it undefined)."""
+    defs = _def_nodes(g).get(name)
+    if not defs:
+        return [], True
+    found: list[int] = []
+    seen: set[int] = set()
+    stack = [p for p, _ in g.pred[at]]
+    hit_entry = False
+    while stack:
+        n = stack.pop()
+        if n in seen:
+            continue
+        seen.add(n)
+        if n in defs:
+            if n not in found:
+                found.append(n)
+            continue
+        if n == g.entry:
+            hit_entry = True
+        stack.extend(p for p, _ in g.pred[n])
+    return sorted(found), hit_entry
+
+
+def flows(fi: FuncInfo, at: Node, e: ast.expr | None, depth: int = 6) -> list[tuple[ast.expr, list[Node]]]:
+    """Leaves of the value of ``e`` at CFG node ``at``: (leaf expression, CFG nodes the value passed through - the
+    definition sites, innermost last).  Locals are followed through all their reaching plain assignments; ``a or b``
+    and ``x if c else y`` are split.  The conditions under which a leaf flows are the control dependences of the
+    returned nodes (plus those of ``at``)."""
+    if e is None:
+        return []
+    g = build_cfg(fi.node)
+    if isinstance(e, ast.IfExp):
+        return flows(fi, at, e.body, depth) + flows(fi, at, e.orelse, depth)
+    if isinstance(e, ast.BoolOp) and isinstance(e.op, ast.Or):
+        out: list[tuple[ast.expr, list[Node]]] = []
+        for v in e.values:
+            out += flows(fi, at, v, depth)
+        return out
+    if isinstance(e, ast.Name) and isinstance(e.ctx, ast.Load) and depth > 0:
+        found, hit_entry = reaching_defs(g, at.id, e.id)
+        table = _def_nodes(g).get(e.id, {})
+        if found and not hit_entry and all(table[d] is not None for d in found):
+            out = []
+            for d in found:
+                v = table[d]
+                if d == at.id:
+                    continue  # a definition that only reaches itself around a loop
+                for leaf, chain in flows(fi, g.nodes[d], v, depth - 1):
+                    out.append((leaf, [g.nodes[d], *chain]))
+            if out:
+                return out
+    return [(e, [])]
+
+
+def flow_conditions(fi: FuncInfo, at: Node, chain: list[Node]) -> set[tuple[str, bool]]:
+    """Union of the control dependences (text form, polarity) of the use site and of every definition site of a flow."""
+    out: set[tuple[str, bool]] = set()
+    for n in [at, *chain]:
+        for txt, pol, _ in control_deps(fi, n):
+            out.add((txt, pol))
+    return out
+
+
+def str_template(e: ast.expr) -> list[tuple[str, object]] | None:
+    """A string-building expression as literal parts and holes: [("lit", "from "), ("hole", <expr>), ...]; None if not a template."""
+    if isinstance(e, ast.Constant) and isinstance(e.value, str):
+        return [("lit", e.value)]
+    if isinstance(e, ast.JoinedStr):
+        out: list[tuple[str, object]] = []
+        for v in e.values:
+            if isinstance(v, ast.Constant):
+                out.append(("lit", v.value))
+            elif isinstance(v, ast.FormattedValue):
+                out.append(("hole", v.value))
+        return out
+    if isinstance(e, ast.Call) and isinstance(e.func, ast.Attribute) and e.func.attr == "format" and isinstance(e.func.value, ast.Constant) and isinstance(e.func.value.value, str):
+        import re as _re
+
+        parts = _re.split(r"(\{\d*\}|\{[a-zA-Z_]\w*\})", e.func.value.value)
+        out = []
+        auto = 0
+        for p in parts:
+            if not p:
+                continue
+            if p.startswith("{") and p.endswith("}") and "{{" not in p:
+                key = p[1:-1]
+                if key == "":
+                    arg = e.args[auto] if auto < len(e.args) else None
+                    auto += 1
+                elif key.isdigit():
+                    arg = e.args[int(key)] if int(key) < len(e.args) else None
+                else:
+                    arg = next((k.value for k in e.keywords if k.arg == key), None)
+                if arg is None:
+                    return None
+                out.append(("hole", arg))
+            else:
+                out.append(("lit", p.replace("{{", "{").replace("}}", "}")))
+        return out
+    if isinstance(e, ast.BinOp) and isinstance(e.op, ast.Add):
+        l, r = str_template(e.left), str_template(e.right)
+        if l is not None and r is not None:
+            return l + r
+        if l is not None:
+            return l + [("hole", e.right)]
+        if r is not None:
+            return [("hole", e.left)] + r
+    if isinstance(e, ast.BinOp) and isinstance(e.op, ast.Mod) and isinstance(e.left, ast.Constant) and isinstance(e.left.value, str):
+        args = list(e.right.elts) if isinstance(e.right, ast.Tuple) else [e.right]
+        parts = e.left.value.split("%s")
+        if len(parts) == len(args) + 1:
+            out = []
+            for i, p in enumerate(parts):
+                if p:
+                    out.append(("lit", p))
+                if i < len(args):
+                    out.append(("hole", args[i]))
+            return out
+    return None
+
+
+def template_text(t: list[tuple[str, object]]) -> str:
+    """Literal skeleton of a template with holes written as {}."""
+    return "".join(v if k == "lit" else "{}" for k, v in t)  # type: ignore[misc]
